@@ -406,25 +406,24 @@ class Oracle:
         if okc:
             meet = pos.startswith('meeting')
             if pos == 'meeting':
-                self.ok('intersect-op:meeting', r, "L1 ^ L2 is False for two lines through a common point (equal direction lengths, exact data)", rp)
+                self.ok('intersect-op:meets:equal-lengths', r, "L1 ^ L2 is False for two lines through a common point (equal direction lengths, exact data)", rp)
             elif pos == 'meeting-unequal':
-                self.ok('intersect-op:meeting-unequal-lengths', r, "L1 ^ L2 is False for two lines through a common point whose direction "
-                        "lengths differ (the reciprocal product normalises each direction separately)", rp)
+                self.ok('intersect-op:meets:unequal-lengths', r, "L1 ^ L2 is False for two lines through a common point whose direction lengths differ (exact integer data)", rp)
             elif pos == 'meeting-rounded':
                 self.ok('intersect-op:meeting-rounded', r, "L1 ^ L2 is False for two meeting lines in floating-point data "
                         "(absolute tolerance 10*eps on the reciprocal product)", rp)
             elif not rounded:
                 self.ok(f'intersect-op:{pos}', r == meet, f"L1 ^ L2 is {r} for lines in {pos} position", rp)
         # intersection point
-        if pos == 'meeting':
-            okc, r = self.call('intersects', lambda: L1.intersects(L2), rp)
+        if pos in ('meeting', 'meeting-unequal'):
+            okc, r = self.call('intersects:meets', lambda: L1.intersects(L2), rp)
             if okc:
                 if r is None:
-                    self.ok('intersects:none', False, "intersects() is None for two lines through a common point", rp)
+                    self.ok('intersects:meets:none', False, "intersects() is None for two lines through a common point", rp)
                 elif np.shape(r) != (3,) and np.size(r) != 3:
-                    self.ok('intersects:shape', False, f"intersects() returns an array of shape {np.shape(r)} instead of the intersection point", rp)
+                    self.ok('intersects:result-shape', False, f"intersects() returns an array of shape {np.shape(r)} instead of the intersection point", rp)
                 else:
-                    self.close('intersects:point', np.asarray(r, float).flatten(), rp_common(p1, w1, p2, w2), S, rp)
+                    self.close('intersects:meets:point', np.asarray(r, float).flatten(), rp_common(p1, w1, p2, w2), max(S, 1.0), rp, "intersects() is not the common point of the two lines")
         elif pos == 'general':
             okc, r = self.call('intersects', lambda: L1.intersects(L2), rp)
             if okc:
@@ -446,10 +445,10 @@ class Oracle:
                 cpp = np.cross(cv, cw) / (cw @ cw)
                 self.close('commonperp:meets-L1', dist_point_line(f1, cpp, cw), 0.0, S, rp, "commonperp() does not meet the first line at the foot")
                 self.close('commonperp:meets-L2', dist_point_line(f2, cpp, cw), 0.0, S, rp, "commonperp() does not meet the second line at the foot")
-                self.close('commonperp:constraint', cv @ cw / (nrm(cw) ** 2), 0.0, S, rp,
+                self.close('commonperp:plucker-constraint', cv @ cw / (nrm(cw) ** 2), 0.0, S, rp,
                            "commonperp(): the result violates the Pluecker constraint v.w = 0")
         # distance
-        okc, d = self.call('distance:parallel' if par else f'distance:{pos}', lambda: L1.distance(L2), rp)
+        okc, d = self.call('distance:parallel-exact' if (par and not rounded) else f'distance:{pos}', lambda: L1.distance(L2), rp)
         if okc:
             if par:
                 dref = dist_point_line(p2, p1, w1)
@@ -458,8 +457,8 @@ class Oracle:
             else:
                 f1, f2, n = feet(p1, w1, p2, w2)
                 dref = nrm(f1 - f2)
-            key = {'general': 'distance:general:value', 'parallel': 'distance:parallel:value', 'coincident': 'distance:parallel:value',
-                   'parallel-rounded': 'distance:parallel-rounded:value'}.get(pos, 'distance:meeting:value')
+            key = {'general': 'distance:skew', 'parallel': 'distance:parallel-exact:value', 'coincident': 'distance:parallel-exact:value',
+                   'parallel-rounded': 'distance:parallel-rounded:value'}.get(pos, 'distance:meets')
             self.close(key, d, dref, S, rp, f"distance() of lines in {pos} position")
 
     # ---------------------------------------------------------------- planes
@@ -476,7 +475,7 @@ class Oracle:
         self.close('plane-PN:equation', np.array(pl.n, float) @ p0 + pl.d, 0.0, nrm(n) * S, rp, "Plane.PN(p, n): n.p + d != 0")
         okc, r = self.call('plane-contains', lambda: bool(pl.contains(p0, tol=REL * nrm(n) * S)), rp)
         if okc:
-            self.ok('plane-contains:defining-point', r, "Plane.PN(p, n).contains(p) is False for the point the plane was built from (plane equation n.x + d = 0)", rp)
+            self.ok('plane-contains:PN-point', r, "Plane.PN(p, n).contains(p) is False for the point the plane was built from (plane equation n.x + d = 0)", rp)
         # other points of the plane are contained, points off the plane (1e-3 relative, either side; the mirror image of p) are not
         t1 = np.cross(n, rand_unit(rng) + 1e-3)
         inpl = p0 + t1 / nrm(t1) * S * rng.uniform(0.1, 2)
@@ -497,11 +496,13 @@ class Oracle:
         a = a / nrm(a)
         b = np.cross(n, a) / nrm(n)
         pts = np.c_[p0, p0 + a * S, p0 + b * S]
-        okc, p3 = self.call('plane-P3', lambda: Plane.P3(pts), rp)
+        okc, p3 = self.call('plane-from-3-points', lambda: Plane.P3(pts), rp)
         if okc:
             nn = np.array(p3.n, float)
             for j in range(3):
-                self.close('plane-P3:equation', nn @ pts[:, j] + p3.d, 0.0, nrm(nn) * S, rp, "Plane.P3: a defining point does not satisfy the plane equation")
+                self.close('plane-from-3-points:equation', nn @ pts[:, j] + p3.d, 0.0, nrm(nn) * S, rp, "Plane.P3: a defining point does not satisfy the plane equation")
+                self.ok('plane-from-3-points:contains', bool(p3.contains(pts[:, j], tol=REL * nrm(nn) * S * 10)), "Plane.P3(points).contains(defining point) is False", rp)
+            self.close('plane-from-3-points:normal', np.cross(nn, n) / (nrm(nn) * nrm(n)), np.zeros(3), 1.0, rp, "Plane.P3: normal is not orthogonal to the plane of the three points")
         # line / plane intersection (plane not parallel to the line)
         L = Plucker.PointDir(P, w)
         okc, r = self.call('intersect-plane', lambda: L.intersect_plane(pl), rp)
@@ -515,7 +516,7 @@ class Oracle:
                 self.close('intersect-plane:p', r.p, x_ref, (S + nrm(x_ref)) * cond, rp, "intersect_plane().p is not the intersection point")
                 okc2, pl_ = self.call('point', lambda: np.array(L.point(r.lam), float).flatten(), rp)
                 if okc2:
-                    self.close('intersect-plane:lam', pl_, x_ref, (S + nrm(x_ref)) * cond, rp,
+                    self.close('intersect-plane:parameter', pl_, x_ref, (S + nrm(x_ref)) * cond, rp,
                                "intersect_plane().lam is not the line parameter: point(lam) is not the intersection point")
         # line as the intersection of two planes
         n2 = dir_at_angle(rng, n, 0.1) * log_uniform(rng, 1e-3, 1e3)
@@ -554,11 +555,11 @@ def oracle(ctx):
     rng = ctx.rng
     O = Oracle(ctx)
     A = lambda *x: np.array(x, float)
-    # ---- the witnesses of the `_refuted` theorems, replayed on the implementation (same keys as the random sweep)
-    O.pair('meeting-unequal', A(0, 0, 1), A(1, 0, 0), A(0, 0, 1), A(0, 2, 0))          # C19_recip_meeting_lines_refuted
-    O.pair('general', A(0, 0, 0), A(1, 0, 0), A(0, 0, 1), A(3, 4, 0))                  # C19_commonperp_constraint_refuted
-    O.pair('general', A(0, 0, 0), A(1, 0, 0), A(0, 0, 1), A(0.6, 0.8, 0))              # C19_distance_refuted
-    O.plane(A(2, 0, 0), A(1, 0, 0), A(0, 0, 0), A(1, 0, 0), rng)                       # C19_intersect_plane_lam_refuted
+    # ---- the witnesses of the former `_refuted` theorems (all repaired in /repo): they must now stay silent
+    O.pair('meeting-unequal', A(0, 0, 1), A(1, 0, 0), A(0, 0, 1), A(0, 2, 0))          # witness of the former C19_recip_meeting_lines_refuted (repaired: silent)
+    O.pair('general', A(0, 0, 0), A(1, 0, 0), A(0, 0, 1), A(3, 4, 0))                  # witness of the former C19_commonperp_constraint_refuted (repaired: silent)
+    O.pair('general', A(0, 0, 0), A(1, 0, 0), A(0, 0, 1), A(0.6, 0.8, 0))              # witness of the former C19_distance_refuted (repaired: silent)
+    O.plane(A(2, 0, 0), A(1, 0, 0), A(0, 0, 0), A(1, 0, 0), rng)                       # witness of the former C19_intersect_plane_lam_refuted (repaired: silent)
     O.plane(A(1, 0, 0), A(1, 0, 0), A(0, 1, 0), A(1, 1, 0), rng)                       # witness of the former C19_Plane_contains_defining_point_refuted (repaired: must stay silent)
     N = ctx.n(250, 40000)
     for i in range(N):
